@@ -219,10 +219,18 @@ impl<'a, H: HashChain> InMemoryLmotsSignature<'a, H> {
     pub fn new(data: &'a [u8]) -> Option<Self> {
         let mut index = 0;
 
+        if data.len() < 4 {
+            return None;
+        }
         let lmots_parameter = LmotsAlgorithm::get_from_type::<H>(u32::from_be_bytes(
             read_and_advance(data, 4, &mut index).try_into().unwrap(),
-        ))
-        .unwrap();
+        ))?;
+
+        let signature_length =
+            (H::OUTPUT_SIZE as usize) * (1 + lmots_parameter.get_num_winternitz_chains() as usize);
+        if data.len() < index + signature_length {
+            return None;
+        }
 
         let signature_randomizer = read_and_advance(data, H::OUTPUT_SIZE as usize, &mut index);
 
